@@ -12,7 +12,8 @@ RULE = ('case = (seeded abstract design, style) rendered by the independent EDIF
 
 def run(rep, tier, seed):
     rep.explanation = ('bounded stand-in only: contract on sdn.parse(.edf) against an independent writer and canonicaliser '
-                       '(libraries, cells, ports, instances with typed properties, per-bit joins, top, identifier + original name), '
+                       '(libraries, cells, ports, instances with typed properties, per-bit joins, top, identifier + original name, every comment of the '
+                       'source as a tuple of strings under its element), '
                        'Inv I1-I4 and self-containment of the result; bundled examples parse + Inv')
     rep.assumptions.append('tier B: everything outside the stated bounds is unexplored; array nets (net (array ..)) are not generated (outside the supported subset)')
     _rtb.run(rep, PID, SCRIPT, tier, seed, SPEC, RULE, gen_bounds=_rtb.HIER_BOUNDS)
